@@ -24,6 +24,7 @@ type DemuxParams struct {
 	Cancels  int       `json:"cancels,omitempty"` // how many tasks call Cancel(key) at that point (concurrent cancels of one key are legal)
 	StopAt   int       `json:"stop_at"`    // -1: only at the end
 	WFail    int       `json:"wfail,omitempty"` // >0: the WFail-th write on the shared transport fails once (the transport stays usable)
+	Gated    bool      `json:"gated,omitempty"` // consumption order: the consumer of the first announced connection starts reading only once every other key's envelopes have been read
 }
 
 func genDemux(g *rand.Rand, tier string) any {
@@ -91,6 +92,21 @@ func execDemux(e *Env, pp any) {
 		annEv    int
 	}
 	var conns []*connRec
+	// Gated: the first announced connection belongs to the key of the first envelope;
+	// its consumer waits until all envelopes of the other keys have been read
+	othersDone := make(chan struct{})
+	gatedRead, gatedWant := 0, 0
+	if p.Gated && len(p.Seq) > 0 {
+		first := p.Seq[0] % max(p.Keys, 1)
+		for _, k := range p.Seq {
+			if k%max(p.Keys, 1) != first {
+				gatedWant++
+			}
+		}
+		if gatedWant == 0 {
+			close(othersDone)
+		}
+	}
 	cancelDone := false
 	cancelEv := 0
 	dm := goat.NewDemux(dctx, b, func(r *goat.Rpc) string { return r.GetHeader().GetSource() }, func(rw goat.RpcReadWriter) {
@@ -107,6 +123,12 @@ func execDemux(e *Env, pp any) {
 		if cr.idx < len(p.Writes) {
 			nw = p.Writes[cr.idx]
 		}
+		if p.Gated && cr.idx == 0 {
+			select {
+			case <-othersDone:
+			case <-rctx.Done():
+			}
+		}
 		for i := 0; nr < 0 || i < nr; i++ {
 			e.Pt("conn.read")
 			r, err := rw.Read(rctx)
@@ -121,6 +143,12 @@ func execDemux(e *Env, pp any) {
 				cr.key = r.GetHeader().GetSource()
 			}
 			cr.read = append(cr.read, string(r.GetBody().GetData()))
+			if p.Gated && cr.idx != 0 {
+				gatedRead++
+				if gatedRead == gatedWant {
+					close(othersDone)
+				}
+			}
 			histMu.Unlock()
 			e.Log("conn.read", "", cr.idx, "")
 		}
@@ -418,6 +446,15 @@ func execDemux(e *Env, pp any) {
 			}
 		}
 	}
+	if p.Gated && gatedWant > 0 {
+		e.Note("demux.gated-consumer")
+		histMu.Lock()
+		gr := gatedRead
+		histMu.Unlock()
+		if gr < gatedWant {
+			e.Violate(prop, "starved-behind-another-key", "demux.go:Run", "the consumers read the other keys first and the first key last: %d of %d envelopes of the other keys were handed over, the rest wait behind an envelope of the first key that Run is still holding\n%s", gr, gatedWant, e.WaitGraph())
+		}
+	}
 	if stopped && !runReturned {
 		e.Violate(prop, "run-ignores-stop", "demux.go:Run", "Stop was called but Run has not returned after settle\n%s", e.WaitGraph())
 	}
@@ -439,6 +476,24 @@ func readBefore(e *Env, idx, ev int) bool {
 func init() {
 	Register(&Family{Name: "c18.demux", ShrinkKeys: []string{"seq", "cancel_at", "stop_at"}, Props: []string{"C18"}, New: func() any { return &DemuxParams{} }, Gen: genDemux, Exec: execDemux,
 		Faulty: true, FaultKinds: []string{"demux.cancel", "demux.stop"}})
+	// c18.order: all consumption orders of the logical connections - here the order
+	// "every other key first, the first key last", every consumer reading all it gets
+	Register(&Family{Name: "c18.order", ShrinkKeys: []string{"seq"}, Props: []string{"C18"}, New: func() any { return &DemuxParams{} }, Exec: execDemux,
+		Gen: func(g *rand.Rand, tier string) any {
+			p := genDemux(g, tier).(*DemuxParams)
+			p.CancelKey, p.StopAt, p.Cancels = -1, -1, 0
+			p.Keys = 2 + g.IntN(4)
+			for i := range p.Seq {
+				p.Seq[i] = g.IntN(p.Keys)
+			}
+			for i := range p.Reads {
+				p.Reads[i] = -1
+				p.Writes[i] = 0
+			}
+			p.Gated = true
+			return p
+		},
+		Faulty: false})
 	// c18.wfail: the shared transport refuses one envelope and stays usable (an
 	// envelope it cannot encode, a size limit, an HTTP POST answered with an error)
 	Register(&Family{Name: "c18.wfail", ShrinkKeys: []string{"seq"}, Props: []string{"C18"}, New: func() any { return &DemuxParams{} }, Exec: execDemux,
